@@ -371,8 +371,11 @@ PROPS = {
     },
     "C09": {
         "pkg": "./svc/", "test": "TestVerif_Svc", "n_quick": 400, "n_thorough": 20000, "retry_mismatch": True, "env": {"VERIF_PROP": "C09"},
+        "runs": [{"pkg": "./svc/", "test": "TestVerif_Svc", "n_quick": 400, "n_thorough": 20000, "env": {"VERIF_PROP": "C09"}},
+                 {"pkg": "./podexist/", "test": "TestVerif_PodExist", "n_quick": 300, "n_thorough": 20000, "env": {"VERIF_PROP": "C09"}}],
         "rule": "as C04 with frequent GC passes over stores with records of running pods, exited sandboxes, pods deleted from the API, interfaces that are not on the machine, API failures and injected release failures; "
-                "after every pass the store and the pool are compared with the model's pass. non-trivial = at least one pass ran with a vanished pod's record in the store; distinct = distinct input vectors",
+                "after every pass the store and the pool are compared with the model's pass. A second harness asks the daemon's own PodExist (the API answer the pass relies on; the service harness stands a fake in its place) "
+                "against controller-runtime's fake client: 0..5 pods, the queried name on this node, on another node, absent, API unreachable (clauses 905 `exists` only for a pod of this node, 906 a pod of this node is found). non-trivial = at least one pass ran with a vanished pod's record in the store; distinct = distinct input vectors",
         "trusted": ["testing/synctest virtual clock and quiescence detection (go1.26.8); gcPods is only started while no RPC holds the service's read lock (a goroutine parked on sync.RWMutex is not durably blocked for synctest)",
                     "fake Kubernetes view (GetPod / GetLocalPods / PodExist with injectable API failure); recording store around the real bolt-backed DiskStorage with parking points before/after every Put and Delete",
                     "simulated cloud and pool instrumentation as for C01; the replay's expansion of observations into labels is search code"],
